@@ -14,12 +14,17 @@ ANNOTATIONS = ['int', 'str', 'a.B', 'List[int]', 'Dict[str, "Foo"]', "Optional['
                'Callable[[int], str]', "'List[int]'", 'Tuple[()]', 'Tuple[int, ...]', "typing.Literal['lit']", "'Dict[str, Tuple[int, ...]]'",
                'None', "'None'", 'Callable[..., "T"]', "Union['A', 'b.C', None]", 'type[int]', "list['X | None']", 'Annotated[int, "meta"]' if False else 'Final',
                'Optional[None]', '"a.b.C"',
+               'Dict[str, Tuple[Callable[[int, str, bytes], Optional[float]], Mapping[str, Sequence[Union[int, str, None]]]]]',
+               "'Mapping[str, Callable[[SomeVeryLongClassName, AnotherVeryLongClassName], Awaitable[Optional[YetAnotherName]]]]'",
                # quoted forward references below operators and in other spellings of Literal
                '"Node" | None', 'None | "Node"', 'Optional["Node"] | None', 'dict[str, "Node"] | None', '"A" | "b.C"', 'list["Node" | None]', '("Node")',
                "t.Literal['on', 'off']", "typing_extensions.Literal['x y', 'z']", "te.Literal['a'] | None", "Annotated['Node', 'meta']", '[("Node")]', "Callable[['A', 'B'], 'C']",
                "Literal['a'] | 'Node'", "'Literal[\"q\"]'"]
 DEFAULTS = ['1', 'None', "'s'", 'a.b', '-1', '()', '[]', '{}', 'x + 1', 'f(1, k=2)', "b'x'", '...', '1.5', '(1, 2)', 'not x', 'lambda: 0', 'A | B',
-            "'it\\'s'", '"<tag> & \\"q\\""', 'x if y else z', '[i for i in y]', 'a[1:2]', '-(-1)', 'a ** -b', '(a, b)[0]', '{1: 2}', 'a < b', 'a and b or c']
+            "'it\\'s'", '"<tag> & \\"q\\""', 'x if y else z', '[i for i in y]', 'a[1:2]', '-(-1)', 'a ** -b', '(a, b)[0]', '{1: 2}', 'a < b', 'a and b or c',
+            # values longer than any line-length setting of the value display (a signature is not wrapped or cut)
+            "'" + 'long text ' * 12 + "'", '[' + ', '.join(str(i) for i in range(1000, 1030)) + ']', 'frozenset({' + ', '.join(f"'k{i}'" for i in range(20)) + '})',
+            'some_module.some_factory(first_argument=1, second_argument=(2, 3), third_argument={"key": "value"}, fourth=None)']
 
 
 def layouts(n: int) -> Iterator[List[str]]:
